@@ -87,7 +87,7 @@ def shrink(prop, case, sig, budget_s=120.0, timeout=120.0):
 
 
 def write_replay(prop, case, sig, detail, seed, tier):
-    d = os.path.join("/verif/replays", prop.ID)
+    d = os.path.join(os.environ.get("VERIF_REPLAY_DIR") or "/verif/replays", prop.ID)
     os.makedirs(d, exist_ok=True)
     tag = hashlib.sha256(("%s|%s" % sig).encode()).hexdigest()[:10]
     path = os.path.join(d, "%s-%s-%s.json" % (sig[0].replace(" ", "_").replace("/", "_")[:40], tag,
